@@ -62,4 +62,24 @@ PROPS["C03"] = {
     "assumptions": ["standard transport", "default engine without recovery middleware"],
 }
 
+PROPS["C06"] = {
+        "modules": ["Hertz.Props.C06"],
+        "rule": "Bounded-exhaustive: every set of <=3 route patterns of <=2 segments over the segment alphabet "
+                "{a, ab, :x, :y, b:x, *z, empty} in every registration order (rejected sets included: the model must "
+                "refuse the same route with the same class), sets of 4 over the 42 accepted clean patterns (quick: every "
+                "31st set in 3 orders; thorough: all 111930 sets in 6 orders), sampled sets of 4-6 patterns of <=3 "
+                "segments in 3 orders, random sets of 1-12 routes over a larger alphabet with two methods in two orders, "
+                "and a malformed stream (unclean / invalid patterns, hostile request targets); each line carries 12-33 "
+                "lookups (paths instantiated from and near the patterns, plus a method without tree) served by "
+                "Engine.ServeHTTP on a ut-style context.",
+        "exhaustive_note": "route sets of <=3 patterns with <=2 segments over the 7-segment alphabet: all sets x all orders (both tiers); sets of 4 over the accepted clean patterns: all sets in thorough; the rest is sampled",
+        "level_text": "Proved in Lean for all inputs (no size bound): for every route list that registration accepts, every method and path, Engine.serve runs the handler of the route selected by the documented priority (literal > :param > *catch-all at the first token where matching patterns differ), reports that route's pattern as full path and binds each parameter to the substring it matched; if no pattern matches no route handler runs; it never panics; the outcome is the same for every registration order of the same set (dispatch_selected, order_independent, accepted_distinct, register_one, insert_preserves, find_best). The model (tree.go insert/addRoute/find, engine.go addRoute/ServeHTTP) is held to the Go code by differential runs including all small route sets in all orders, and the declarative spec is evaluated on the implementation's own output for every lookup.",
+        "level_note": "Trusted: Lean kernel, harness/driver, the recursive formulation of the iterative find (validated by the correspondence). Hypothesis of the theorems: patterns shorter than 65536 bytes (countParams is a uint16; with >=65536 wildcards in one pattern the real code panics). Open: order independence of *acceptance* is checked differentially only. path.Join (pattern cleaning) and URI normalisation are taken from the implementation; redirect-vs-404 for unmatched paths is not modelled (status copied).",
+        "assumptions": ["path.Join (stdlib) cleans the pattern; the model starts from the absolute path it returns (checked: clean patterns are left unchanged)",
+                        "the request path seen by the router is URI().Path() (normalisation is property C07)",
+                        "UseRawPath/UnescapePathValues/RedirectFixedPath are off (defaults); fewer than 65536 bytes per pattern",
+                        "handlers chains are non-empty (Engine.addRoute asserts it); ctx.Params starts empty (fresh or reset context)"],
+        "timeout": {"quick": 240, "thorough": 2400},
+    }
+
 NOT_CLAIMED = {}
